@@ -7,9 +7,10 @@ sys.path.insert(0, V)
 from sa import localsig
 from sa.repo import PACKAGES
 root = sys.argv[1] if len(sys.argv) > 1 else "/repo"
-from sa import inline
+from sa import inline, relocate
 table = {}
 known = {}
+shapes = {}
 for pkg in PACKAGES:
     for dp, dn, fn in os.walk(os.path.join(root, pkg)):
         dn[:] = sorted(d for d in dn if d != "__pycache__")
@@ -27,6 +28,11 @@ for pkg in PACKAGES:
                     ent[q] = {key: nm for nm, key in sorted(sigs.items())}
             if ent: table[mod] = ent
             known[mod] = sorted(inline.all_function_quals(tree))
+            glob = sorted({t.id for st in tree.body for t in ([x for tt in st.targets for x in ast.walk(tt)] if isinstance(st, ast.Assign) else
+                                                               [st.target] if isinstance(st, (ast.AnnAssign, ast.AugAssign)) else []) if isinstance(t, ast.Name)})
+            shapes[mod] = {q: {"params": relocate.params_of(v[0]), "bag": relocate.bag_of(v[0])} for q, v in inline.all_function_quals(tree).items()}
+            shapes[mod]["<globals>"] = {"params": [], "bag": glob}
 json.dump(table, open(localsig.TABLE_PATH, "w"), indent=0, sort_keys=True)
+json.dump(shapes, open(relocate.SHAPES_PATH, "w"), indent=0, sort_keys=True)
 json.dump(known, open(inline.KNOWN_PATH, "w"), indent=0, sort_keys=True)
 print("modules", len(table), "functions", sum(len(v) for v in table.values()), "locals", sum(len(x) for v in table.values() for x in v.values()))
